@@ -25,7 +25,7 @@ def run_on_mutant(patch, props, tier="quick"):
         subprocess.run(["git", "-C", dst, "config", "user.name", "v"], check=True)
         r = subprocess.run(["git", "-C", dst, "apply", "-3", os.path.abspath(patch)], capture_output=True, text=True)
         if r.returncode != 0:
-            subprocess.run(["git", "-C", dst, "checkout", "-q", "--", "."], check=True)
+            subprocess.run(["git", "-C", dst, "reset", "-q", "--hard"], check=True)
             r = subprocess.run(["patch", "-p1", "--fuzz=3", "-d", dst, "-i", os.path.abspath(patch)],
                                capture_output=True, text=True)
             if r.returncode != 0:
